@@ -388,7 +388,7 @@ func (c *Ctx) smallV3() vector3.Float64 {
 	return vector3.New(float64(c.Rng.Intn(9)-4), float64(c.Rng.Intn(9)-4), float64(c.Rng.Intn(9)-4))
 }
 
-var layoutOps = []string{"unweld", "removeunref", "flip", "topointcloud", "setindices", "append", "filter", "split", "weld", "crop", "removenull"}
+var layoutOps = []string{"unweld", "removeunref", "flip", "topointcloud", "setindices", "setattr", "append", "filter", "split", "weld", "crop", "removenull"}
 var transformOps = []string{"translate", "scale", "meshscale", "rotate", "applytrs", "center", "normalize", "smoothnormals", "flatnormals", "laplacian"}
 
 // applyOp runs operation `name` of the real packages on m with generated parameters.
@@ -421,6 +421,68 @@ func (c *Ctx) applyOp(name string, m modeling.Mesh) opRun {
 			parts = append(parts, strconv.Itoa(i))
 		}
 		return runOp(name, strings.Join(parts, " ")+" "+ms, false, func() []modeling.Mesh { return one(m.SetIndices(idx)) })
+	case "setattr":
+		// SetFloatNAttribute: an existing or a new key; data of the common length, or empty (the key is
+		// deleted), or — on a mesh without attributes — of any length
+		spec := attrPool[c.Rng.Intn(len(attrPool))]
+		n := m.AttributeLength()
+		hasAny := len(m.Float1Attributes())+len(m.Float2Attributes())+len(m.Float3Attributes())+len(m.Float4Attributes()) > 0
+		if !hasAny && m.Indices().Len() == 0 {
+			n = c.Rng.Intn(4)
+		}
+		// deleting a key (empty data) keeps the mesh well-formed when another attribute array remains, the
+		// key is absent anyway, or there is no index (theorems setAttr_wf / setAttr_delete_wf); deleting the
+		// only attribute array of an indexed mesh is a caller error like SetIndices with a bad index
+		nAttrs := len(m.Float1Attributes()) + len(m.Float2Attributes()) + len(m.Float3Attributes()) + len(m.Float4Attributes())
+		hasKey := false
+		switch spec.width {
+		case 1:
+			hasKey = m.HasFloat1Attribute(spec.name)
+		case 2:
+			hasKey = m.HasFloat2Attribute(spec.name)
+		case 3:
+			hasKey = m.HasFloat3Attribute(spec.name)
+		case 4:
+			hasKey = m.HasFloat4Attribute(spec.name)
+		}
+		if c.Rng.Intn(4) == 0 && (nAttrs > 1 || !hasKey || m.Indices().Len() == 0) {
+			if n > 0 {
+				c.Note("setattr:delete")
+			}
+			n = 0
+		}
+		vals := make([]float64, n*spec.width)
+		for i := range vals {
+			vals[i] = float64(9000 + c.Rng.Intn(500))
+		}
+		args := fmt.Sprintf("%d %s %d", spec.width, spec.name, n)
+		if len(vals) > 0 {
+			args += " " + Fs(vals...)
+		}
+		return runOp(name, args+" "+ms, false, func() []modeling.Mesh {
+			switch spec.width {
+			case 1:
+				return one(m.SetFloat1Attribute(spec.name, vals))
+			case 2:
+				d := make([]vector2.Float64, n)
+				for i := range d {
+					d[i] = vector2.New(vals[2*i], vals[2*i+1])
+				}
+				return one(m.SetFloat2Attribute(spec.name, d))
+			case 3:
+				d := make([]vector3.Float64, n)
+				for i := range d {
+					d[i] = vector3.New(vals[3*i], vals[3*i+1], vals[3*i+2])
+				}
+				return one(m.SetFloat3Attribute(spec.name, d))
+			default:
+				d := make([]vector4.Float64, n)
+				for i := range d {
+					d[i] = vector4.New(vals[4*i], vals[4*i+1], vals[4*i+2], vals[4*i+3])
+				}
+				return one(m.SetFloat4Attribute(spec.name, d))
+			}
+		})
 	case "append":
 		g := meshGen{topo: []modeling.Topology{m.Topology()}, maxVerts: 8, materials: true}
 		if c.Rng.Intn(15) == 0 {
